@@ -261,6 +261,10 @@ Eff(op, S, X) ==
            IF S.form # "builder" THEN EFNa(S)
            ELSE IF PushOK(S, X, op.x) THEN EFR({"ret"}, S, <<"app", op.x>>)
            ELSE EFPanic(S)
+      [] o = "push_unchecked" ->       \* documented precondition = the acceptance rule of push
+           IF S.form # "builder" THEN EFNa(S)
+           ELSE IF PushOK(S, X, op.x) THEN EFR({"ret"}, S, <<"app", op.x>>)
+           ELSE EFR({"bad-script"}, S, <<"same">>)
       [] o = "extend" ->
            IF S.form # "builder" THEN EFNa(S)
            ELSE IF ExtendOK(S, X, op.xs)
